@@ -851,6 +851,15 @@ class CInterp:
                 for nm, g in goals:
                     self.oblige(nm, "post", g)
             return model(self, args, n)
+        chk = self.spec.checks.get(name)
+        if chk is not None:           # call-site obligations on a same-file callee (inlined below)
+            try:
+                goals = chk(self, args)
+            except (KeyError, AttributeError, IndexError, TypeError) as e:
+                goals = [(f"call-site contract of {name}: a slot it names was not read or built by the code "
+                          f"({type(e).__name__}: {e})", False)]
+            for nm, g in goals:
+                self.oblige(nm, "post", g)
         if name in self.tu:
             return self.inline(self.tu[name], args)
         # a helper defined in the same file (e.g. after an "extract function" refactoring): inline its body
